@@ -10,7 +10,8 @@
  *     first), most significant octet first iff the table is big-endian;
  *   - a value is acceptable iff it decodes (floats: zero or normal) and meets
  *     the register's constraint (inclusive min / max / range, "fail" only
- *     during initialisation, callback = the validator's verdict).
+ *     during initialisation, callback = the validator's verdict) -- these
+ *     value-level notions are taken from spec/registers.h (C01's oracle).
  *
  * Plain C: the same text is compiled by goto-cc for the proofs and by gcc for
  * the native replay.  Loops are bounded by the table dimensions (tier B).
@@ -19,6 +20,7 @@
 #define SPEC_REGISTERS_BLOCK_H
 #include <stdint.h>
 #include <stdbool.h>
+#include "spec/registers.h"
 
 #define RB_M64(x) ((uint64_t)(x))
 
@@ -63,127 +65,43 @@
 #define RB_AREA_WRITABLE(a) ((a)->write != NULL && ((a)->flags & REG_AF_WRITEABLE) != 0)
 #define RB_AREA_READABLE(a) ((a)->read != NULL && ((a)->flags & REG_AF_READABLE) != 0)
 
-/* ---- values ---------------------------------------------------------- */
-
-/* the value's bit pattern (low 16/32/64 bits by type) */
+/* ---- values ----------------------------------------------------------
+ * Value-level semantics (bit pattern, octet image, float acceptability,
+ * constraints, validator verdict) are those of spec/registers.h, the oracle of
+ * typed access (C01); the block-level properties add the layout on top. */
 static inline uint64_t rb_bits_of(RegisterType ty, RegisterValueU v)
 {
-  switch (ty) {
-  case REG_TYPE_UINT16: return v.u16;
-  case REG_TYPE_SINT16: return (uint16_t)v.s16;
-  case REG_TYPE_UINT32: return v.u32;
-  case REG_TYPE_SINT32: return (uint32_t)v.s32;
-  case REG_TYPE_FLOAT32: return v.u32;      /* same storage as f32 */
-  case REG_TYPE_UINT64: return v.u64;
-  case REG_TYPE_SINT64: return (uint64_t)v.s64;
-  case REG_TYPE_FLOAT64: return v.u64;      /* same storage as f64 */
-  default: return 0;
-  }
-}
-
-static inline RegisterValueU rb_value_of(RegisterType ty, uint64_t bits)
-{
-  RegisterValueU v;
-  v.u64 = 0;
-  switch (ty) {
-  case REG_TYPE_UINT16: v.u16 = (uint16_t)bits; break;
-  case REG_TYPE_SINT16: v.u16 = (uint16_t)bits; break;
-  case REG_TYPE_UINT32: case REG_TYPE_SINT32: case REG_TYPE_FLOAT32: v.u32 = (uint32_t)bits; break;
-  default: v.u64 = bits; break;
-  }
-  return v;
-}
-
-/* octet k (0 = first in memory) of the image of an n-octet value */
-static inline uint8_t rb_image_octet(uint64_t bits, unsigned noct, bool be, unsigned k)
-{
-  unsigned sh = be ? 8u * (noct - 1u - k) : 8u * k;
-  return (uint8_t)(bits >> sh);
+  return spec_bits(ty, v);
 }
 
 /* word w of the image of a value of type ty */
 static inline uint16_t rb_image_word(RegisterType ty, uint64_t bits, bool be, unsigned w)
 {
-  unsigned noct = 2u * RB_WORDS(ty);
-  if (2u * w + 1u >= noct)
+  unsigned n = RB_WORDS(ty);
+  if (w >= n)
     return 0;
-  return (uint16_t)(rb_image_octet(bits, noct, be, 2u * w)
-                    | ((uint16_t)rb_image_octet(bits, noct, be, 2u * w + 1u) << 8));
+  return spec_word(bits, n, be, w);
 }
 
 /* bit pattern encoded by the words w[0 .. words(ty)) */
 static inline uint64_t rb_decode(RegisterType ty, bool be, const uint16_t *w)
 {
-  unsigned noct = 2u * RB_WORDS(ty);
-  uint64_t bits = 0;
-  for (unsigned k = 0; k < 8u; k++) {
-    if (k < noct) {
-      uint8_t o = (k & 1u) ? (uint8_t)(w[k / 2u] >> 8) : (uint8_t)(w[k / 2u] & 0xffu);
-      unsigned sh = be ? 8u * (noct - 1u - k) : 8u * k;
-      bits |= (uint64_t)o << sh;
-    }
-  }
-  return bits;
+  return spec_decode(w, RB_WORDS(ty), be);
 }
 
-/* floats must be zero or normal (exponent field neither 0 nor all ones) */
+/* floats must be zero or normal */
 static inline bool rb_decodes(RegisterType ty, uint64_t bits)
 {
-  if (ty == REG_TYPE_FLOAT32) {
-    uint32_t b = (uint32_t)bits, ex = (b >> 23) & 0xffu;
-    return (b & 0x7fffffffu) == 0 || (ex != 0 && ex != 0xffu);
-  }
-  if (ty == REG_TYPE_FLOAT64) {
-    uint64_t ex = (bits >> 52) & 0x7ffu;
-    return (bits & 0x7fffffffffffffffull) == 0 || (ex != 0 && ex != 0x7ffu);
-  }
-  return RB_TYPE_IS_VALUE(ty);
+  return RB_TYPE_IS_VALUE(ty) && spec_float_ok(ty, bits);
 }
 
-static inline bool rb_ge(RegisterType ty, RegisterValueU v, RegisterValueU lim)
+/* constraint of register e met by the value with bit pattern `bits` */
+static inline bool rb_constraint_ok(const RegisterEntry *e, uint64_t bits, bool during_init)
 {
-  switch (ty) {
-  case REG_TYPE_UINT16: return v.u16 >= lim.u16;
-  case REG_TYPE_UINT32: return v.u32 >= lim.u32;
-  case REG_TYPE_UINT64: return v.u64 >= lim.u64;
-  case REG_TYPE_SINT16: return v.s16 >= lim.s16;
-  case REG_TYPE_SINT32: return v.s32 >= lim.s32;
-  case REG_TYPE_SINT64: return v.s64 >= lim.s64;
-  case REG_TYPE_FLOAT32: return v.f32 >= lim.f32;
-  case REG_TYPE_FLOAT64: return v.f64 >= lim.f64;
-  default: return false;
-  }
-}
-
-static inline bool rb_le(RegisterType ty, RegisterValueU v, RegisterValueU lim)
-{
-  switch (ty) {
-  case REG_TYPE_UINT16: return v.u16 <= lim.u16;
-  case REG_TYPE_UINT32: return v.u32 <= lim.u32;
-  case REG_TYPE_UINT64: return v.u64 <= lim.u64;
-  case REG_TYPE_SINT16: return v.s16 <= lim.s16;
-  case REG_TYPE_SINT32: return v.s32 <= lim.s32;
-  case REG_TYPE_SINT64: return v.s64 <= lim.s64;
-  case REG_TYPE_FLOAT32: return v.f32 <= lim.f32;
-  case REG_TYPE_FLOAT64: return v.f64 <= lim.f64;
-  default: return false;
-  }
-}
-
-/* constraint of register e met by the value with bit pattern `bits`;
- * cb_verdict = what the register's validator callback says about it */
-static inline bool rb_constraint_ok(const RegisterEntry *e, uint64_t bits, bool during_init, bool cb_verdict)
-{
-  RegisterValueU v = rb_value_of(e->type, bits);
-  switch (e->check.type) {
-  case REGV_TYPE_TRIVIAL: return true;
-  case REGV_TYPE_FAIL: return during_init;
-  case REGV_TYPE_MIN: return rb_ge(e->type, v, e->check.arg.min);
-  case REGV_TYPE_MAX: return rb_le(e->type, v, e->check.arg.max);
-  case REGV_TYPE_RANGE: return rb_ge(e->type, v, e->check.arg.range.min) && rb_le(e->type, v, e->check.arg.range.max);
-  case REGV_TYPE_CALLBACK: return cb_verdict;
-  default: return false;
-  }
+  RegisterValue v;
+  v.type = e->type;
+  v.value = spec_value_of(e->type, bits);
+  return spec_valid(e, v, during_init);
 }
 
 /* ---- the flat address space ------------------------------------------ */
@@ -251,17 +169,17 @@ struct rb_init_expect {
   uint32_t index;
 };
 
-static inline bool rb_default_ok(const RegisterEntry *e, bool be, bool cb_verdict)
+static inline bool rb_default_ok(const RegisterEntry *e)
 {
   uint64_t bits = rb_bits_of(e->type, e->default_value);
-  (void)be;
-  return rb_decodes(e->type, bits) && rb_constraint_ok(e, bits, true, cb_verdict);
+  return rb_decodes(e->type, bits) && rb_constraint_ok(e, bits, true);
 }
 
 static inline struct rb_init_expect
 rb_spec_first_violation(const RegisterArea *area, uint32_t na, const RegisterEntry *entry, uint32_t ne,
-                        bool be, const bool *cb_verdict)
+                        bool be)
 {
+  (void)be;
   struct rb_init_expect r = { REG_INIT_SUCCESS, 0 };
   if (na == 0) {
     r.code = REG_INIT_NO_AREAS;
@@ -300,7 +218,7 @@ rb_spec_first_violation(const RegisterArea *area, uint32_t na, const RegisterEnt
       r.code = REG_INIT_ENTRY_IN_MEMORY_HOLE; r.index = j;
       return r;
     }
-    if (RB_AREA_LOADS_DEFAULTS(&area[in]) && !rb_default_ok(&entry[j], be, cb_verdict[j])) {
+    if (RB_AREA_LOADS_DEFAULTS(&area[in]) && !rb_default_ok(&entry[j])) {
       r.code = REG_INIT_ENTRY_INVALID_DEFAULT; r.index = j;
       return r;
     }
